@@ -42,6 +42,23 @@ func (c *Ctx) respDataSwitches() []*tswitch {
 				bySubject[ta.X] = ts
 			}
 			ts.types[typeString(ta.AssertedType)] = true
+			// a case on an interface of the package (`case respWireValue: v.writeWire(sb)`) stands for every type of the
+			// package that implements it: method dispatch instead of one case per type
+			if it, isIface := ta.AssertedType.Underlying().(*types.Interface); isIface && it.NumMethods() > 0 {
+				sc := c.Pkg.Types.Scope()
+				for _, nm := range sc.Names() {
+					tn, isTN := sc.Lookup(nm).(*types.TypeName)
+					if !isTN {
+						continue
+					}
+					if _, isI := tn.Type().Underlying().(*types.Interface); isI {
+						continue
+					}
+					if types.Implements(tn.Type(), it) || types.Implements(types.NewPointer(tn.Type()), it) {
+						ts.types[typeString(tn.Type())] = true
+					}
+				}
+			}
 		}
 		for subj, ts := range bySubject {
 			if len(ts.types) < 6 {
@@ -566,6 +583,67 @@ func ruleC15Hello(c *Ctx) {
 				}
 				for _, in2 := range b.Instrs {
 					if c.isErrorReplyStore(in2) {
+						errorExit = true
+					}
+				}
+			}
+			// the refusal may be a `return false` that every caller turns into the error reply
+			// (`if !cs.useProtocol(ver) { reply NOPROTO }`)
+			if !errorExit && fn.Signature.Results().Len() == 1 {
+				if bt, isB := fn.Signature.Results().At(0).Type().Underlying().(*types.Basic); isB && bt.Kind() == types.Bool {
+					refuses := false
+					for _, b := range fn.Blocks {
+						ret, isRet := b.Instrs[len(b.Instrs)-1].(*ssa.Return)
+						if !isRet || b == st.Block() || reachableFrom(st.Block(), nil)[b] {
+							continue
+						}
+						if !mayBeTrueAt(ret.Results[0], b) {
+							refuses = true
+						}
+					}
+					callersReply := false
+					if node := c.CG.Nodes[fn]; node != nil && refuses {
+						callersReply = len(node.In) > 0
+						for _, e := range node.In {
+							call, isCall := e.Site.(*ssa.Call)
+							if !isCall {
+								callersReply = false
+								continue
+							}
+							okSite := false
+							for _, r := range referrers(call) {
+								cond, neg := ssa.Value(call), false
+								if u, isU := r.(*ssa.UnOp); isU && u.Op == token.NOT {
+									cond, neg = u, true
+								}
+								for _, r2 := range referrers(cond) {
+									ifi, isIf := r2.(*ssa.If)
+									if !isIf {
+										continue
+									}
+									refusedSide := ifi.Block().Succs[1]
+									if neg {
+										refusedSide = ifi.Block().Succs[0]
+									}
+									for rb := range reachableFrom(refusedSide, nil) {
+										if rb != refusedSide && !refusedSide.Dominates(rb) {
+											continue
+										}
+										for _, in3 := range rb.Instrs {
+											if c.isErrorReplyStore(in3) {
+												okSite = true
+											}
+										}
+									}
+								}
+								_ = r
+							}
+							if !okSite {
+								callersReply = false
+							}
+						}
+					}
+					if refuses && callersReply {
 						errorExit = true
 					}
 				}
